@@ -44,6 +44,7 @@ type eSchema struct {
 	Name    string
 	Fields  []uField // object fields / oneof options
 	Options []string // enum options
+	OptionNum []int  // the `number` an enum option declares (0 = none); ignored by the compiler (positional numbering)
 }
 
 func (sc eSchema) coq() string {
@@ -121,6 +122,7 @@ type entityDecl struct {
 	Keys      []eKey
 	Data      []uField
 	Status    []string
+	StatusNum []int // the `number` a status declares (0 = none), parallel to Status (may be shorter)
 	Events    []eEvent
 	Commands  []eCommand
 	Summaries []eSummary
@@ -211,7 +213,11 @@ func (d *entityDecl) coq() string {
 	if d.Query != nil {
 		q = fmt.Sprintf("(Some (mkQ %s %s %s))", vh.BoolTerm(d.Query.EventsInGet), coqList(d.Query.DefaultStatus, bt), vh.BoolTerm(d.Query.ListRequest != 0))
 	}
-	return fmt.Sprintf("(mkE %s %s %s %s %s %s %s %s %s %s %s)",
+	nums := make([]string, len(d.StatusNum))
+	for i, n := range d.StatusNum {
+		nums[i] = fmt.Sprint(n)
+	}
+	return fmt.Sprintf("(mkE12 %s %s %s %s %s %s %s %s %s %s %s [%s])",
 		bt(d.Pkg), bt(d.Name), bt(d.BaseURL),
 		coqList(d.Keys, func(k eKey) string { return fmt.Sprintf("(mkK %s %s)", k.uField.coq(), vh.BoolTerm(k.Shard)) }),
 		fieldsCoq(d.Data),
@@ -228,7 +234,8 @@ func (d *entityDecl) coq() string {
 		}),
 		coqList(d.Summaries, func(s eSummary) string { return fmt.Sprintf("(mkS %s %s)", bt(s.Name), fieldsCoq(s.Fields)) }),
 		q,
-		coqList(d.Schemas, eSchema.coq))
+		coqList(d.Schemas, eSchema.coq),
+		strings.Join(nums, "; "))
 }
 
 // ---- j5s text ----------------------------------------------------------------------
@@ -350,8 +357,12 @@ func (d *entityDecl) block() string {
 	for _, f := range d.Data {
 		printField(&sb, "\t", "data", f)
 	}
-	for _, s := range d.Status {
-		sb.WriteString("\tstatus " + s + "\n")
+	for i, s := range d.Status {
+		if i < len(d.StatusNum) && d.StatusNum[i] != 0 {
+			fmt.Fprintf(&sb, "\tstatus %s {\n\t\tnumber = %d\n\t}\n", s, d.StatusNum[i])
+		} else {
+			sb.WriteString("\tstatus " + s + "\n")
+		}
 	}
 	for _, e := range d.Events {
 		sb.WriteString("\tevent " + e.Name + " {\n")
@@ -419,8 +430,12 @@ func (d *entityDecl) block() string {
 			}
 		case 2:
 			sb.WriteString("\tenum " + sc.Name + " {\n")
-			for _, o := range sc.Options {
-				sb.WriteString("\t\toption " + o + "\n")
+			for i, o := range sc.Options {
+				if i < len(sc.OptionNum) && sc.OptionNum[i] != 0 {
+					fmt.Fprintf(&sb, "\t\toption %s {\n\t\t\tnumber = %d\n\t\t}\n", o, sc.OptionNum[i])
+				} else {
+					sb.WriteString("\t\toption " + o + "\n")
+				}
 			}
 		default:
 			sb.WriteString("\tobject " + sc.Name + " {\n")
